@@ -34,7 +34,7 @@ class Result(dict):
 
 
 def build(ctx, kind='asan'):
-    return ctx.driver('ksi_exec', ['ksi_exec.c', 'ksi_exec_net.c'], kind=kind, curl='sim', extra_cflags=(['-DKX_FAILPOINTS'] if kind == 'asanfp' else []), extra_ld=(['-no-pie'] if kind == 'asanfp' else []),
+    return ctx.driver('ksi_exec', ['ksi_exec.c', 'ksi_exec_net.c'], kind=kind, curl='sim', extra_cflags=(['-DKX_FAILPOINTS'] if kind in ('asanfp', 'plainfp') else []), extra_ld=(['-no-pie'] if kind in ('asanfp', 'plainfp') else []),
                       wraps=['time', 'socket', 'connect', 'ioctl', 'setsockopt', 'poll', 'send', 'recv', 'close', 'getaddrinfo', 'freeaddrinfo', 'fopen'])
 
 
